@@ -10,7 +10,9 @@
 //	wg <new> <parent> <name>                                    WithGroup  -> same | new
 //	wa <new> <parent> attr*                                     WithAttrs  -> same | new
 //	en <h> <level>                                              Enabled    -> true | false
-//	mode <sink> ok|fail|panic|panice                            behaviour of the sink's Write from now on
+//	mode <sink> ok|fail|faile|fails|panic|panice                behaviour of the sink's Write from now on: fail = fresh
+//	                                                            plain error, faile = fresh *errs.Error, fails = the
+//	                                                            sink's one sentinel *errs.Error (same pointer always)
 //	hold <sink> / release <sink>                                stall / resume the sink of a buffered handler
 //	log <h> <level> <tstok> <sec> <nsec> <zone> <msg> attr*     Handle(record) -> writes since the last op + return
 //	logerr <h> <level> <msg> attr*                              errs.LogAttrsWithLevel with a real *errs.Error
@@ -60,6 +62,7 @@ type sink struct {
 	seen     int
 	sentSeq  int
 	root     *tracelog.Handler
+	sentinel *errs.Error // the long-lived error of mode `fails`: the same pointer on every call
 }
 
 func (s *sink) Write(p []byte) (int, error) {
@@ -85,8 +88,12 @@ func (s *sink) Write(p []byte) (int, error) {
 	s.writes = append(s.writes, bytes.Clone(p))
 	id := strconv.Itoa(s.id)
 	switch s.mode {
-	case "fail":
+	case "fail": // a fresh plain error
 		return 0, errors.New("sinkfail" + id)
+	case "faile": // a fresh *errs.Error
+		return 0, errs.New("sinkfail" + id)
+	case "fails": // the sink's sentinel *errs.Error
+		return 0, s.sentinel
 	case "panic":
 		panic("sinkpanic" + id)
 	case "panice":
@@ -190,7 +197,7 @@ func fmtErr(err error) string {
 			items = append(items, "E:"+we.Message())
 		}
 	}
-	return "ret=[" + strings.Join(items, ",") + "]"
+	return "ret=" + strconv.Itoa(e.Count()) + "[" + strings.Join(items, ",") + "]"
 }
 
 // settle brings every buffered sink to a deterministic state and returns false if one is stuck.
@@ -246,6 +253,20 @@ func (ss *session) collect(canon func([]byte) []byte) []string {
 	return out
 }
 
+// sentinels prints Count() and Message() of every sink's sentinel error: nothing may ever change them.
+func (ss *session) sentinels() string {
+	ids := ss.sinkIDs()
+	if len(ids) == 0 {
+		return "sent=-"
+	}
+	parts := make([]string, 0, len(ids))
+	for _, id := range ids {
+		e := ss.sinks[id].sentinel
+		parts = append(parts, fmt.Sprintf("%d:%d:%s", id, e.Count(), hx.Hex([]byte(e.Message()))))
+	}
+	return "sent=" + strings.Join(parts, ",")
+}
+
 type logArea struct{}
 
 func (logArea) Run(line string) string {
@@ -281,7 +302,7 @@ func (ss *session) run(f []string) string {
 			return "bad-op"
 		}
 		id := hx.Atoi(f[2])
-		s := &sink{id: id, mode: "ok", depth: hx.Atoi(f[4])}
+		s := &sink{id: id, mode: "ok", depth: hx.Atoi(f[4]), sentinel: errs.New("sinksentinel" + f[2])}
 		s.cond = sync.NewCond(&s.mu)
 		cfg := &tracelog.Config{Level: slog.Level(hx.Atoi(f[3])), Sink: s, BufferDepth: s.depth}
 		if len(f) > 5 {
@@ -350,7 +371,7 @@ func (ss *session) run(f []string) string {
 			return "bad-op"
 		}
 		switch f[2] {
-		case "ok", "fail":
+		case "ok", "fail", "faile", "fails":
 		case "panic", "panice":
 			if s.depth > 0 { // a panic in the delivery goroutine would kill the process
 				return "bad-op"
@@ -415,7 +436,7 @@ func (ss *session) run(f []string) string {
 		if !ss.settle() {
 			ret += " stuck"
 		}
-		return strings.Join(append(ss.collect(nil), ret), " ")
+		return strings.Join(append(ss.collect(nil), ret, ss.sentinels()), " ")
 	case "logerr":
 		if len(f) < 4 {
 			return "bad-op"
@@ -499,7 +520,7 @@ func (ss *session) logErr(h slog.Handler, level slog.Level, msg string, attrs []
 		}
 		return bytes.ReplaceAll(w, []byte(fb), []byte("<<FB>>"))
 	}
-	return strings.Join(append(ss.collect(canon), ret), " ")
+	return strings.Join(append(ss.collect(canon), ret, ss.sentinels()), " ")
 }
 
 // ---------------------------------------------------------------------------------------------- attribute trees
